@@ -28,10 +28,14 @@ func applyC19(in, out string) error {
 	sc.Buffer(make([]byte, 1<<20), 1<<26)
 	for sc.Scan() {
 		var c struct {
-			Doc json.RawMessage `json:"doc"`
+			Doc   json.RawMessage `json:"doc"`
+			Spell bool            `json:"spell"` // decode another text of the same value: strings and member names written with escapes
 		}
 		if err := json.Unmarshal(sc.Bytes(), &c); err != nil {
 			return err
+		}
+		if c.Spell {
+			c.Doc = respellJSON(c.Doc)
 		}
 		res := orderedMap{}
 		func() {
